@@ -250,6 +250,7 @@ int main(int argc, char **argv) {
   std::vector<vf::Part> parts;
   parts.push_back({"c12.exhaustive6", [](uint64_t idx, Rng &, CaseResult &r) { exhaustiveCase(idx, r, 6); }, 30});
   parts.push_back({"c12.exhaustive7", [](uint64_t idx, Rng &, CaseResult &r) { exhaustiveCase(idx, r, 7); }, 30});
+  parts.push_back(vf::threaded("c12.threads", [](uint64_t, Rng &rng, CaseResult &r) { randomCase(rng, r, false); }, 4, 25, 120));
   parts.push_back({"c12.random", [](uint64_t, Rng &rng, CaseResult &r) { randomCase(rng, r, false); }, 10});
   parts.push_back({"c12.big", [](uint64_t, Rng &rng, CaseResult &r) { randomCase(rng, r, true); }, 10});
   return vf::runMain(argc, argv, parts);
